@@ -154,7 +154,7 @@ Section Proofs.
     pose proof HR as HR0. destruct HR as [Hhn Hvh Hsg Hmp Hst Hrv Hcur Hnxt].
     assert (Hsigned : p_signed g = false).
     { destruct (p_signed g) eqn:E; [rewrite Hsg in Hc by reflexivity; discriminate|reflexivity]. }
-    destruct o as [sync|valid need_cs sync|sec np chain_ok commit sync| | |nl nr sc| | | ].
+    destruct o as [sync|valid need_cs sync|sec np chain_ok commit sync|sync| | |nl nr sc| | | ].
     - (* OCommit *)
       destruct (can_generate_new_commitment point s).
       + apply (maybe_restore_sim sync _ g g []); [exact Hc|reflexivity|].
@@ -202,6 +202,9 @@ Section Proofs.
             - exists np. split; [reflexivity|]. apply announced_cons_same. }
           eapply R_core; [|exact HRn]. destruct commit; core_eq.
       + eapply close_sim; [cbn [chk_all]; rewrite Evr; reflexivity|sf; exact Hvh|exact Hhn].
+    - (* OMonUpdate *)
+      apply (maybe_restore_sim sync _ g g []); [exact Hc|reflexivity|].
+      eapply R_core; [|exact HR0]. core_eq.
     - (* OMonitorDone *)
       destruct (mon_in_progress s); [apply restore_sim; assumption|].
       exists g. split; [reflexivity|exact HR0].
